@@ -368,6 +368,55 @@ pub fn check_program(ctx: &Ctx, p: &Prog, rng: &mut Rng, all_mutants: bool) {
         m.push(Node::Instr { label: Some(spell::case(&s.name, rng)), form: crate::refmodel::isa::form_index("nop"), ops: vec![] });
         check_must_fail(ctx, &m, "duplicate-label", &format!("label `{}` defined twice", s.name));
     }
+    // (2b) a name defined twice by .equ with another value, or by .equ and a label: no unique definition
+    for s in p.syms.iter().filter(|s| s.kind == "equ" || s.kind.starts_with("label")) {
+        if !all_mutants && !rng.chance(1, 2) {
+            continue;
+        }
+        let mut m = p.nodes.clone();
+        m.push(Node::Seg(Seg::Code));
+        m.push(Node::Equ(spell::case(&s.name, rng), E::Lit(0x5a5a, 1)));
+        m.push(Node::Data { label: None, width: 2, ops: vec![DataOp::E(E::Sym(spell::case(&s.name, rng)))] });
+        check_must_fail(ctx, &m, if s.kind == "equ" { "duplicate-equ" } else { "equ-with-the-name-of-a-label" }, &format!("`{}` defined a second time by .equ", s.name));
+        if s.kind == "equ" {
+            let mut m = p.nodes.clone();
+            m.push(Node::Seg(Seg::Code));
+            m.push(Node::Instr { label: Some(spell::case(&s.name, rng)), form: crate::refmodel::isa::form_index("nop"), ops: vec![] });
+            m.push(Node::Data { label: None, width: 2, ops: vec![DataOp::E(E::Sym(spell::case(&s.name, rng)))] });
+            check_must_fail(ctx, &m, "label-with-the-name-of-an-equ", &format!("`{}` defined by .equ and as a label", s.name));
+        }
+    }
+    // (2c) a second .def of a live alias on another register, used afterwards: an error, or (the AVR
+    // assembler manual lets a .def be redefined) the alias is rebound - never silently the old register
+    for (nm, reg, d, undef) in p.aliases.iter() {
+        if undef.is_some() || (!all_mutants && !rng.chance(1, 2)) {
+            continue;
+        }
+        let _ = d;
+        let other = (*reg + 7) % 32;
+        let tail = |with_undef: bool| -> Vec<Node> {
+            let mut m = p.nodes.clone();
+            m.push(Node::Seg(Seg::Code));
+            if with_undef {
+                m.push(Node::Undef(nm.clone()));
+            }
+            m.push(Node::Def(nm.to_uppercase(), other));
+            m.push(Node::instr("inc", vec![Opnd::Alias(nm.clone())]));
+            m
+        };
+        let dup = fw::build_str(&ir::print_canonical(&tail(false)));
+        let rebound = fw::build_str(&ir::print_canonical(&tail(true)));
+        ctx.eval(1);
+        ctx.count("mutants:second-def-of-live-alias", 1);
+        let ok = match (&dup, &rebound) {
+            (Outcome::Err(_), _) => true,
+            (Outcome::Ok(a), Outcome::Ok(b)) => a.code == b.code,
+            _ => false,
+        };
+        if !ok {
+            ctx.violation("sym/mutant/second-def-of-live-alias/old-register-used", format!("`.def {} = r{}` while the alias is live on r{}: neither refused nor rebound", nm, other, reg), json!({"source": ir::print_canonical(&tail(false)), "kind": "second-def-of-live-alias", "mutation": "second .def", "must_fail": true, "observed": dup.brief()}));
+        }
+    }
     // (3) use an alias after its .undef
     for (nm, _, _, undef) in p.aliases.iter() {
         if let Some(u) = undef {
@@ -409,8 +458,8 @@ pub fn run(ctx: &Ctx) -> i32 {
     });
     fw::finish(
         ctx,
-        "programs of 5-40 steps defining and using code/data/EEPROM labels, .equ (chained, forward-defined), .set (reassignment chains incl. `v = v + k`) and .def/.undef/.def aliases, every definition and reference in independently random letter case, referenced from ldi low()/high(), lds/sts, rjmp/rcall/jmp/call and .dw/.dd; per program all single-symbol mutants: delete each referenced definition, duplicate each label, use each alias after its .undef, undefined names in data/instruction/alias position (all must fail), and every alias replaced by its register (identical image); counters lookup:* = LOOKUP hook events by answering table; distinct_nontrivial = distinct base program texts",
-        &["refmodel/layout.rs binding rules (labels and .equ global and lazy, .set sequential in source order, .def live from definition to .undef)", "a second .def of a live alias without .undef is not generated (outcome not specified)"],
+        "programs of 5-40 steps defining and using code/data/EEPROM labels, .equ (chained, forward-defined), .set (reassignment chains incl. `v = v + k`) and .def/.undef/.def aliases, every definition and reference in independently random letter case, referenced from ldi low()/high(), lds/sts, rjmp/rcall/jmp/call and .dw/.dd; per program all single-symbol mutants: delete each referenced definition, duplicate each label, define each .equ a second time with another value, each label also by .equ and each .equ also as a label, redefine each live alias on another register (refused, or rebound - never the old register), use each alias after its .undef, undefined names in data/instruction/alias position (all must fail), and every alias replaced by its register (identical image); counters lookup:* = LOOKUP hook events by answering table; distinct_nontrivial = distinct base program texts",
+        &["refmodel/layout.rs binding rules (labels and .equ global and lazy, .set sequential in source order, .def live from definition to .undef)", "a second .def of a live alias without .undef may be refused or rebind the alias (both documented behaviours); silently keeping the old register is a violation"],
     )
 }
 
